@@ -1,7 +1,7 @@
 #!/usr/bin/env python3
 """Prepare a round of sub-agent work: scratch worktrees of /repo and one prompt file per property.
 
-usage: mk_prompts.py seed    <base dir> <flavour: unusual|coordinated|disguised|feature|subtle|modern|perf|edge|mixed> [Cxx ...]
+usage: mk_prompts.py seed    <base dir> <flavour: unusual|coordinated|disguised|feature|subtle|modern|perf|edge|history|mixed> [Cxx ...]
        mk_prompts.py neutral <base dir> <flavour: small|medium|large|modern|perf> [Cxx ...]
 
 Each sub-agent gets ONLY the text of one property (from properties.jsonl) and its own scratch git worktree
@@ -57,6 +57,8 @@ FLAVOURS["modern"] = '''Flavour for this property: a MODERNISING refactoring wit
 FLAVOURS["perf"] = '''Flavour for this property: a PERFORMANCE or ALLOCATION optimisation with ONE wrong detail. Each change rewrites a piece of the anchored code (or of code it depends on) the way a maintainer chasing allocations and copies would - a two-pass encoder that first adds up the size and then fills one pre-sized buffer at a running offset; a decoder that walks the input with an integer offset instead of re-slicing; a scratch buffer, hash object or cipher object kept and reused across iterations or calls; append onto a caller-supplied or shared slice instead of a fresh one; a sub-slice of the input kept instead of a copy; copy() with computed bounds; a map replaced by a small sorted slice or an array indexed by type; a length computed once and cached; an early exit for the common case; loop fusion - and is behaviour-preserving EXCEPT for exactly one detail that breaks the property: a size or offset that is off in one case, a reused buffer that still holds old octets, an alias that should have been a copy, a cached value that goes stale, the early exit taken in one case too many. 15-60 changed lines of which one or two matter.'''
 
 FLAVOURS["edge"] = '''Flavour for this property: wrong only AT AN EDGE of the property's quantifier. Read the quantifier carefully and list its extremes: empty and single-element lists, the first and the last element, zero-length and maximum-length byte strings (255 / 256 / 65535 / 65536 octets), the smallest and largest value of every integer field (0, 1, 127/128, 255, 2^15, 2^16-1), the smallest and largest algorithm / key size, exact multiples of a block or hash size versus one more or one less, the first call versus a later call on the same object, a value equal to a limit versus just below it. Each change must behave exactly like the original everywhere EXCEPT at one such extreme (or one combination of two), where it breaks the property - an inclusive bound made exclusive or the reverse, a special case added or removed for zero / empty / last, a narrower integer type that holds every value but the largest, a division or modulo that misbehaves for exact multiples, a loop that stops one short, an early return for the "trivial" case that is not trivial. 1-15 changed lines. Do not pick the extreme that the existing tests exercise.'''
+
+FLAVOURS["history"] = '''Flavour for this property: wrong only for a particular HISTORY or SEQUENCE of calls. Each change must give exactly the original result whenever an object is used once, freshly constructed - and break the property only on a second or later use, or for a particular order of calls: an object (message, container, header, SA key object, hash / cipher object, EAP packet, attribute map, builder target) that is decoded into, encoded, protected, or set TWICE; decoding into a struct that already holds data from an earlier decode; encoding after a decode versus after construction; a setter called again with a smaller or larger value; two SAs or two messages built from the same input slices; a derived field or cache that is not recomputed; a slice that is extended in place the second time; a Reset that is missing or in the wrong place so that the first use is right and the next one is not; an error on one call that leaves the object half-updated for the next. The existing tests construct fresh objects nearly everywhere, so such changes keep them green. 1-25 changed lines. State clearly in NOTES.md the shortest sequence of calls that shows the break.'''
 
 NEUTRAL_SMALL = '''You are helping to evaluate a verification effort by playing the role of a careful maintainer who REFACTORS code without changing behaviour. ''' + HEAD + '''
 Your task: produce FOUR independent, realistic, BEHAVIOUR-PRESERVING changes (call them a, b, c, d) to the library's non-test source inside the code this property is anchored in. Each change on its own must
